@@ -574,7 +574,10 @@ Proof.
     + cbn [ac mk_access_token_claims at_with_custom a_iat]. rewrite the_skew_eff. fold cl. lia.
     + cbn [ac mk_access_token_claims at_with_custom a_extra]. rewrite the_drop_at_eff. fold cl.
       apply forallb_forall. intros e He. apply merge_registered_in in He as [He _].
-      destruct (is_exchange (cs_flow c)); [destruct He|].
+      destruct (is_exchange (cs_flow c)).
+      { unfold exchange_claims in He. destruct (rq_actor (cs_req c) =s "") eqn:Ea; [destruct He|].
+        destruct He as [<-|[]]. cbn [fst snd negb andb]. now rewrite !eqb_refl_s, orb_true_r. }
+      apply orb_true_iff. left.
       apply custom_claims_in in He.
       unfold remove_userinfo in He. now apply string_in_filter in He.
     + destruct (at_consistent c) eqn:Ec; [now apply Hrd | reflexivity].
@@ -819,7 +822,8 @@ Section Readable.
     /\ a_exp a = st_exp now (cl_at_life cl')
     /\ a_iat a = (sec now - cl_skew cl')%Z /\ a_nbf a = a_iat a
     /\ (forall e, In e (a_extra a) ->
-          string_in ("custom:" ++ fst e)%string (restrict (cl_drop_at cl') (rq_scopes rq)) = true
+          (if is_exchange f then e = ("act", act_json (rq_actor rq)) /\ rq_actor rq <> ""
+           else string_in ("custom:" ++ fst e)%string (restrict (cl_drop_at cl') (rq_scopes rq)) = true)
           /\ forall n, In n (at_written a) -> fold_eq (fst e) n = false)
     /\ (sign_complete verify kat -> key_ok kat = true -> published_once kat keys = true ->
         string_in (sk_alg kat) (effective_algs algs) = true ->
@@ -838,8 +842,10 @@ Section Readable.
     split; [reflexivity|]. split; [reflexivity|]. split; [reflexivity|]. split; [reflexivity|].
     split; [reflexivity|]. split.
     - intros e He. apply merge_registered_in in He as [He Hno]. split; [|exact Hno].
-      destruct (is_exchange f); [destruct He|].
-      apply custom_claims_in in He. unfold remove_userinfo in He. now apply string_in_filter in He.
+      destruct (is_exchange f).
+      + unfold exchange_claims in He. destruct (rq_actor rq =s "") eqn:Ea; [destruct He|].
+        destruct He as [<-|[]]. split; [reflexivity|]. now apply eqb_neq_s.
+      + apply custom_claims_in in He. unfold remove_userinfo in He. now apply string_in_filter in He.
     - intros Hs Hk Hp Ha H0 H1.
       apply verify_access_accepts; try assumption; reflexivity.
   Qed.
@@ -871,7 +877,7 @@ Definition ex_case : case :=
     (mkKey "sig-1" "ES384" KEc 4) (mkKey "sig-1-next" "RS256" KRsa 0) 0
     [mkJwk "sig-1" "enc" KEc 5; mkJwk "sig-1" "sig" KRsa 1; mkJwk "sig-1" "" KEc 4; mkJwk "prev" "sig" KEc 5]
     (Some (mkUser "Alice" "alice@example.com" "u-alice" "tel-alice" "addr-alice"))
-    (mkReq "tenant:alice" ["web"] ["openid"; "profile"; "address"; "offline_access"] "n1" "" ["pwd"] 1790000000)
+    (mkReq "tenant:alice" ["web"] ["openid"; "profile"; "address"; "offline_access"] "n1" "" ["pwd"] 1790000000 "")
     "st" (mkIds "at2" "rt2" "at3") (mkEnt (repeat 7 16) "")
     1790000100500000000 1790000100600000000 1790000100700000000
     (mkVerifier "https://op.example.com" "web" 30000000000 0 0 (Some "n1") None ["ES384"]) ["ES384"]
@@ -900,7 +906,7 @@ Definition ex_case_rot : case :=
     (mkKey "sig-1" "ES384" KEc 4) (mkKey "sig-1-next" "RS256" KRsa 0) 1
     [mkJwk "sig-1-next" "" KRsa 0; mkJwk "sig-1" "sig" KEc 4]
     (Some (mkUser "Alice" "alice@example.com" "u-alice" "tel-alice" "addr-alice"))
-    (mkReq "alice" ["web"] ["openid"; "address"] "n1" "" ["pwd"] 1790000000)
+    (mkReq "alice" ["web"] ["openid"; "address"] "n1" "" ["pwd"] 1790000000 "")
     "st" (mkIds "at2" "rt2" "at3") (mkEnt (repeat 7 16) "h.p.s")
     1790000100500000000 1790000100600000000 1790000100700000000
     (mkVerifier "https://op.example.com" "web" 1000000000 0 0 (Some "n1") None ["ES384"; "RS256"]) ["RS256"; "ES384"]
